@@ -69,10 +69,13 @@ type Scenario interface {
 // Record is the worker's output line for one run and, with Trace filled in,
 // the body of a replay file.
 type Record struct {
-	Prop        string         `json:"property"`
-	Scenario    string         `json:"scenario"`
-	Seed        int64          `json:"seed"`
-	Run         int            `json:"run"`
+	Prop     string `json:"property"`
+	Scenario string `json:"scenario"`
+	Seed     int64  `json:"seed"`
+	Run      int    `json:"run"`
+	// Tier the run was generated under (some generators draw deeper bounds
+	// in the thorough tier; a replay must use the same).
+	Tier        string         `json:"tier,omitempty"`
 	Result      Result         `json:"result"`
 	Trace       []choice.Entry `json:"trace,omitempty"`
 	Race        bool           `json:"race_build"`
